@@ -12,7 +12,7 @@ PID = 'C16'
 LEVEL = 'exploration'
 RULE = ("seeded circuits of 1-2 PopulationTemplate(n) (n in 1..6, per-unit heterogeneous constants and initial values) and 1-3 "
         "Connectivity objects (non-square, sparse, signed, non-symmetric weight matrices; scalar weights; optional algebraic "
-        "coupling EdgeTemplate evaluated per (target, source) pair with edge_var_map; optional delay >= 2 steps with or without "
+        "coupling EdgeTemplate evaluated per (target, source) pair with edge_var_map; optional delay >= 2 steps (on or off the step grid) with or without "
         "spread); the reference is the independent semantics of the EXPLICIT network (n separately declared nodes, one scalar edge "
         "per non-zero entry); compared: derivative of every unit at random states (positions by value fingerprinting), Euler "
         "trajectories unit by unit incl. population outputs (one column per unit in unit order), and the explicit circuit built "
@@ -143,8 +143,10 @@ def _gen_pop_case(rnd, want, opened):
                     c['post'] = post
             if rnd.random() < 0.3 or want in ('conn_delay', 'two_delayed_conns_same_source', 'matrix_delay_source_named_k',
                                               'conn_coupling_post_with_delay'):
-                d = rnd.randint(2, 6) * dt
-                c['delay'] = round(d, 6)
+                # on the step grid or off it (fraction >= 0.5 rounds up, < 0.5 rounds down: round(d/dt) steps)
+                d = (rnd.randint(2, 6) + rnd.choice([0.0, 0.0, 0.6, 0.75, 0.3, 0.45])) * dt
+                c['delay'] = round(d, 9)
+                c['off_grid'] = abs(d / dt - round(d / dt)) > 1e-6
                 risk.add('conn_delay')
                 if rnd.random() < 0.4 or want == 'matrix_delay_source_named_k':
                     nord = rnd.choice([1, 2, 3])
@@ -298,6 +300,8 @@ def run_case(case, ctx):
                 mech.get({'matrix': 'matrix_connections', 'scalar': 'scalar_connections', 'coupling': 'coupling_connections'}[c['kind']], 0) + 1
             if c.get('delay'):
                 mech['delayed_connections'] = mech.get('delayed_connections', 0) + 1
+                if c.get('off_grid') and not c.get('spread'):
+                    mech['delays_off_the_step_grid'] = mech.get('delays_off_the_step_grid', 0) + 1
             if c['kind'] != 'scalar' and len(c['W']) != len(c['W'][0]):
                 mech['nonsquare'] = mech.get('nonsquare', 0) + 1
         has_delay = any(c.get('delay') for c in plan_['conns'])
